@@ -239,6 +239,98 @@ theorem C07_values_bucket (blocks : List Block) (r : Req) (wf : ∀ b ∈ blocks
       · simp only [hcond, if_false, List.isEmpty_cons, Bool.false_eq_true]
         exact hms _ (Or.inl rfl)
 
+/-! ### the proxy in front of several stores -/
+
+theorem mem_proxyNames (clients : List Client) (r : Req) (c : Client) (n : Nat)
+    (hc : c ∈ clients) (hm : clientMatches c r = true) (hn : n ∈ clientNames c r) :
+    n ∈ proxyLabelNames clients r := by
+  unfold proxyLabelNames
+  simp only
+  rw [mem_mergeSlices _ _ _ (Nat.le_refl _)]
+  refine ⟨clientNamesAnswer c r, List.mem_map.mpr ⟨c, List.mem_filter.mpr ⟨hc, hm⟩, rfl⟩, ?_⟩
+  unfold clientNamesAnswer
+  split
+  · exact (mem_sortNatsDup _ n).mpr hn
+  · exact (mem_canonNats _ n).mpr hn
+
+theorem mem_proxyValues (clients : List Client) (r : Req) (l : Nat) (c : Client) (v : Nat)
+    (hc : c ∈ clients) (hm : clientMatches c r = true) (hv : v ∈ clientValues c r l) :
+    v ∈ proxyLabelValues clients r l := by
+  unfold proxyLabelValues
+  simp only
+  rw [mem_mergeSlices _ _ _ (Nat.le_refl _)]
+  refine ⟨clientValuesAnswer c r l, List.mem_map.mpr ⟨c, List.mem_filter.mpr ⟨hc, hm⟩, rfl⟩, ?_⟩
+  exact (mem_canonNats _ v).mpr hv
+
+/-- where an entry of the proxy's Series answer comes from -/
+theorem proxySeries_mem (clients : List Client) (r : Req) (es : List Entry) (h : proxySeries clients r = .ok es) :
+    ∀ e ∈ es, ∃ c ∈ clients, clientMatches c r = true ∧ e ∈ clientEntries c r := by
+  unfold proxySeries at h
+  split at h
+  · simp at h
+  · simp only at h
+    split at h
+    · simp at h
+    · simp only [PRes.ok.injEq] at h
+      subst h
+      intro e he
+      obtain ⟨c, hc, hec⟩ := List.mem_flatMap.mp he
+      have := List.mem_filter.mp hc
+      exact ⟨c, this.1, this.2, hec⟩
+
+/-- C07 through the proxy, label names: for every set of stores behind it (TSDB stores and store gateways, any
+    advertised label sets and time ranges) -/
+theorem C07_names_proxy (clients : List Client) (r : Req) (es : List Entry)
+    (wf : ∀ c ∈ clients, ∀ b ∈ c.blocks, WFBlock b) (h : proxySeries clients r = .ok es) :
+    ∀ e ∈ es, ∀ l ∈ e.1, l.1 ∈ proxyLabelNames clients r := by
+  intro e he l hl
+  obtain ⟨c, hc, hm, hec⟩ := proxySeries_mem clients r es h e he
+  apply mem_proxyNames clients r c l.1 hc hm
+  unfold clientEntries clientSeries at hec
+  unfold clientNames
+  cases ht : c.tsdb with
+  | true =>
+    simp only [ht, if_true] at hec ⊢
+    cases hb : c.blocks with
+    | nil => rw [hb] at hec; simp at hec
+    | cons db rest =>
+      rw [hb] at hec
+      simp only at hec ⊢
+      cases hs : tsdbSeries db r with
+      | invalid => rw [hs] at hec; simp at hec
+      | ok es' =>
+        rw [hs] at hec
+        exact C07_names_tsdb db r es' (wf c hc db (by rw [hb]; simp)) hs e hec l hl
+  | false =>
+    simp only [ht, Bool.false_eq_true, if_false] at hec ⊢
+    exact C07_names_bucket c.blocks r e hec l hl
+
+/-- C07 through the proxy, label values -/
+theorem C07_values_proxy (clients : List Client) (r : Req) (es : List Entry)
+    (wf : ∀ c ∈ clients, ∀ b ∈ c.blocks, WFBlock b) (h : proxySeries clients r = .ok es) :
+    ∀ e ∈ es, ∀ l ∈ e.1, l.2 ∈ proxyLabelValues clients r l.1 := by
+  intro e he l hl
+  obtain ⟨c, hc, hm, hec⟩ := proxySeries_mem clients r es h e he
+  apply mem_proxyValues clients r l.1 c l.2 hc hm
+  unfold clientEntries clientSeries at hec
+  unfold clientValues
+  cases ht : c.tsdb with
+  | true =>
+    simp only [ht, if_true] at hec ⊢
+    cases hb : c.blocks with
+    | nil => rw [hb] at hec; simp at hec
+    | cons db rest =>
+      rw [hb] at hec
+      simp only at hec ⊢
+      cases hs : tsdbSeries db r with
+      | invalid => rw [hs] at hec; simp at hec
+      | ok es' =>
+        rw [hs] at hec
+        exact C07_values_tsdb db r es' (wf c hc db (by rw [hb]; simp)) hs e hec l hl
+  | false =>
+    simp only [ht, Bool.false_eq_true, if_false] at hec ⊢
+    exact C07_values_bucket c.blocks r (fun b hb => wf c hc b hb) e hec l hl
+
 /-! ### non-vacuity -/
 
 def exampleDB : Block :=
@@ -254,5 +346,8 @@ example : sortNatsDup (tsdbLabelNames exampleDB exampleReq) = [1, 5, 5, 7, 9] :=
 example : tsdbLabelValues exampleDB exampleReq 5 = [9] := by decide
 example : tsdbLabelValues exampleDB exampleReq 9 = [] := by decide
 example : canonNats (bucketLabelNames [exampleDB] exampleReq) = [1, 5, 7] := by decide
+-- the proxy in front of the TSDB store and the store gateway of the same block: the repeated name of the TSDB store stays
+example : proxyLabelNames (standardClients [exampleDB]) exampleReq = [1, 5, 5, 7, 9] := by decide
+example : (match proxySeries (standardClients [exampleDB]) exampleReq with | .ok es => es.length | _ => 0) = 2 := by decide
 
 end Thanos.StoreSpec
